@@ -6,7 +6,7 @@ import numpy as np
 from vlib import core, dom, rescorr
 
 ID = "C04"
-PROPS = ["C04_update.v", "C01_matrix.v", "C04_step_system.v"]
+PROPS = ["C04_update.v", "C01_matrix.v", "C04_step_system.v", "C02_mesh.v"]
 GEN = ["reservoir"]
 RES_TOL = 1e-9
 
@@ -92,6 +92,14 @@ def extra_cases(rng, quick):
         out.append(dict(kind="single", table=rescorr.synth_table("liquid", 30), table_kind="liquid", pi=9000.0, pf=1000.0, nx=nx,
                         times=np.linspace(0, 12.0, 50), grid="uniform"))
         out.append(dict(kind="single", table=tb, table_kind="shipped", pi=8000.0, pf=8000.0 * (1 - 2e-6), nx=nx, times=np.linspace(0, 2.0, 12) ** 2, grid="quadratic"))
+    # drawdown, shut-in with the frac-face pressure back AT (and, for an injection test, slightly above) the initial pressure, drawdown
+    # again: during the shut-in the depleted region recharges from the interior - each of those steps is a backward-Euler step too
+    for nx in (8, 40):
+        tt = np.linspace(0, 1.2, 25) ** 2
+        for top in (8000.0, 8000.0 * 1.01):
+            sched = np.where(np.arange(25) < 8, 3000.0, np.where(np.arange(25) < 16, top, 5000.0))
+            out.append(dict(kind="single", table=tb, table_kind="shipped", pi=8000.0, pf=3000.0, nx=nx, times=tt, grid="quadratic", sched=[float(x) for x in sched],
+                            sched_style="drawdown / shut-in at p_initial / drawdown" if top == 8000.0 else "drawdown / injection 1% above p_initial / drawdown"))
     return out
 
 
